@@ -31,9 +31,9 @@ def exh_cfg(family, N, D, P, subs=1, works=(1, 2)):
                invariants=inv, properties=props)
 
 
-def gen_cfg(N, D, P, subs, depth, ops, works=(1, 2), lean=True):
+def gen_cfg(N, D, P, subs, depth, ops, works=(1, 2), lean=True, ties=False):
     return cfg({"N": N, "Works": set(works), "MaxDepth": D, "P": P, "MaxSubs": subs, "Depth": depth,
-                "Ops": {q(o) for o in ops}, "Lean": lean, "Script": "ScriptNone"}, spec="GSpec",
+                "Ops": {q(o) for o in ops}, "Lean": lean, "Ties": ties, "Script": "ScriptNone"}, spec="GSpec",
                invariants=["Emit"]).replace("Script = ScriptNone", "Script <- TheScript")
 
 
@@ -48,14 +48,14 @@ def plan(prop, tier):
     num = int(os.environ.get("VERIF_NUM", "0")) or (800 if quick else 8000)
 
     def g(N=6, D=1, P=2, subs=0, depth=12, ops=("submit", "clean", "save", "load"), n=num, S=(1, 3), big=None,
-          flags=(), works=(1, 2), lean=True):
+          flags=(), works=(1, 2), lean=True, ties=False):
         return dict(N=N, D=D, P=P, subs=subs, depth=depth, ops=ops, num=n, S=S, big=big, flags=list(flags),
-                    works=works, lean=lean)
+                    works=works, lean=lean, ties=ties)
 
-    def sc(script, N=4, D=4, P=4, subs=0, works=(1, 2), S=(1, 3), flags=(), lean=True):
+    def sc(script, N=4, D=4, P=4, subs=0, works=(1, 2), S=(1, 3), flags=(), lean=True, ties=False):
         """bounded-exhaustive scenario family: all trees over N blocks, all orders, the scripted step kinds"""
         return dict(N=N, D=D, P=P, subs=subs, depth=len(script), ops=(), num=0, S=S, big=None, flags=list(flags),
-                    works=works, lean=lean, script=list(script))
+                    works=works, lean=lean, script=list(script), ties=ties)
 
     G = "grow"
     maint_ops = ("submit", "clean", "save", "load")
@@ -66,6 +66,8 @@ def plan(prop, tier):
                 g(D=0, P=2, ops=maint_ops, n=num // 2),
                 g(N=7, D=1, P=1, depth=14, ops=("submit", "clean"))]
         gens += [sc([G, G, G, G, "clean", "save", "load"]), sc([G, G, "clean", G, G], works=(1, 3)), sc([G, G, G, "save", "load", G, "clean"], D=1, P=1)]
+        gens += [sc([G, G, G, G, "clean", "save", "load"], works=(1,), ties=True), sc([G, G, G, "clean", G, "save", "load", G], D=2, P=2, works=(1,), ties=True),
+                 g(D=2, P=3, ops=maint_ops, n=num // 2, works=(1,), ties=True)]
     elif prop == "C07":
         exh = [("core", 4, 1, 2, 2)] + ([] if quick else [("core", 5, 1, 2, 1)])
         gens = [g(D=1, P=2, subs=2, ops=("submit", "subscribe", "clean"), big=400),
@@ -73,37 +75,43 @@ def plan(prop, tier):
                 g(N=5, D=2, P=2, subs=1, depth=8, ops=("submit", "subscribe"), works=(1, 2, 3)),
                 g(N=5, D=1, P=2, subs=1, depth=8, ops=("submit", "subscribe")),
                 g(N=7, D=2, P=3, subs=1, depth=14, ops=("submit", "subscribe"))]
-        gens += [sc(["subscribe", G, G, G, G], subs=1), sc([G, "subscribe", G, G, G, "subscribe"], subs=2, works=(1, 3)), sc([G, G, "subscribe", "clean", G, G], subs=1, D=1, P=2)]
+        gens += [sc(["subscribe", G, G, G, G], subs=1), sc([G, "subscribe", G, G, G, "subscribe"], subs=2, works=(1, 3)), sc([G, G, "subscribe", "clean", G, G], subs=1, D=1, P=2),
+                 sc(["subscribe", G, G, G, G], subs=1, works=(1,), ties=True)]
     elif prop == "C08":
         exh = [("core", 4, d, 2, 1) for d in (0, 1, 2)] + ([] if quick else [("core", 5, 1, 2, 1)])
         gens = [g(D=d, P=max(2, d), ops=("submit", "clean", "save"), flags=["-twin"], big=(400 if d == 1 else None),
                   lean=False)
                 for d in (0, 1, 2)] + [g(D=6, P=6, ops=("submit", "clean"), flags=["-twin"]),
                                        g(N=5, D=1, P=2, depth=9, ops=("submit",), flags=["-twin"], lean=False)]
-        gens += [sc([G, G, G, "submit", "submit"], D=0, P=2, flags=["-twin"], lean=False), sc([G, G, G, "submit", "submit"], D=1, P=2, flags=["-twin"], lean=False), sc([G, G, "clean", "submit", "submit"], D=1, P=1, flags=["-twin"], lean=False)]
+        gens += [sc([G, G, G, "submit", "submit"], D=0, P=2, flags=["-twin"], lean=False), sc([G, G, G, "submit", "submit"], D=1, P=2, flags=["-twin"], lean=False), sc([G, G, "clean", "submit", "submit"], D=1, P=1, flags=["-twin"], lean=False),
+                 sc([G, G, G, "submit", "submit"], D=1, P=2, flags=["-twin"], lean=False, works=(1,), ties=True)]
     elif prop == "C09":
         exh = [("maint", 4, 1, 2, 1)]
         gens = [g(D=1, P=1, ops=maint_ops, big=400), g(D=1, P=2, ops=maint_ops, S=(1, 3, 7)),
                 g(D=2, P=2, ops=maint_ops), g(N=7, D=2, P=3, depth=14, ops=("submit", "clean"))]
-        gens += [sc([G, G, G, G, "clean", "save", "load"], D=1, P=1), sc([G, G, G, G, "clean"], D=2, P=2, works=(1, 3)), sc([G, G, "clean", G, G, "clean"], D=4, P=1)]
+        gens += [sc([G, G, G, G, "clean", "save", "load"], D=1, P=1), sc([G, G, G, G, "clean"], D=2, P=2, works=(1, 3)), sc([G, G, "clean", G, G, "clean"], D=4, P=1),
+                 sc([G, G, G, G, "clean", "save", "load"], D=1, P=1, works=(1,), ties=True)]
     elif prop == "C10":
         exh = [("maint", 4, 1, 2, 1), ("maint", 4, 2, 2, 1)]
         gens = [g(D=1, P=2, ops=("submit", "clean"), big=400), g(D=2, P=2, ops=("submit", "clean"), S=(1, 3, 7)),
                 g(D=1, P=1, ops=("submit", "clean", "subscribe"), subs=1),
                 g(N=7, D=2, P=3, depth=14, ops=("submit", "clean"))]
-        gens += [sc([G, G, G, G, "clean"]), sc([G, G, G, "clean", G, "clean"], D=1, P=1), sc([G, G, "clean", G, G, "clean"], works=(1, 3), P=2)]
+        gens += [sc([G, G, G, G, "clean"]), sc([G, G, G, "clean", G, "clean"], D=1, P=1), sc([G, G, "clean", G, G, "clean"], works=(1, 3), P=2),
+                 sc([G, G, G, "clean", G, "clean"], D=2, P=2, works=(1,), ties=True)]
     elif prop == "C11":
         exh = [("maint", 4, 1, 2, 1), ("mark", 3, 3, 2, 1)]
         gens = [g(D=1, P=2, ops=maint_ops, big=400), g(D=2, P=3, ops=maint_ops, S=(1, 3, 7)),
                 g(D=1, P=1, ops=("submit", "save", "load")),
                 g(D=6, P=6, ops=("submit", "save", "load", "mark"))]
-        gens += [sc([G, G, G, G, "save", "load"]), sc([G, G, G, "save", "load", G, "save", "load"], D=1, P=1), sc([G, G, "clean", G, G, "save", "load"], works=(1, 3), P=2), sc([G, G, G, "mark", "save", "load", "submit"], lean=False)]
+        gens += [sc([G, G, G, G, "save", "load"]), sc([G, G, G, "save", "load", G, "save", "load"], D=1, P=1), sc([G, G, "clean", G, G, "save", "load"], works=(1, 3), P=2), sc([G, G, G, "mark", "save", "load", "submit"], lean=False),
+                 sc([G, G, G, "clean", G, "save", "load", G], D=2, P=2, works=(1,), ties=True)]
     elif prop == "C12":
         exh = [("maint", 4, 1, 2, 1)]
         gens = [g(D=1, P=2, ops=("submit", "clean", "save", "reload"), flags=["-crash"], big=400),
                 g(D=2, P=3, ops=("submit", "clean", "save", "reload"), flags=["-crash"]),
                 g(D=1, P=1, ops=("submit", "clean", "save", "load", "reload"), flags=["-crash"])]
-        gens += [sc([G, G, G, "save", G, "clean"], flags=["-crash"]), sc([G, G, "clean", G, G, "save"], flags=["-crash"], D=1, P=1), sc([G, G, G, G, "clean", "reload"], flags=["-crash"])]
+        gens += [sc([G, G, G, "save", G, "clean"], flags=["-crash"]), sc([G, G, "clean", G, G, "save"], flags=["-crash"], D=1, P=1), sc([G, G, G, G, "clean", "reload"], flags=["-crash"]),
+                 sc([G, G, G, "save", G, "clean"], flags=["-crash"], works=(1,), ties=True)]
     elif prop == "C17":
         exh = [("mark", 3, 3, 2, 1)] + ([] if quick else [("mark", 4, 4, 2, 1)])
         gens = [g(D=6, P=6, ops=("submit", "mark", "save", "load")),
@@ -111,13 +119,15 @@ def plan(prop, tier):
                 g(N=5, D=5, P=5, depth=10, ops=("submit", "mark", "clean")),
                 g(N=4, D=4, P=4, depth=8, ops=("submit", "mark", "clean", "save"), works=(1, 2, 3)),
                 g(N=5, D=5, P=5, depth=10, ops=("submit", "mark"))]
-        gens += [sc([G, G, G, G, "clean", "mark", "save", "load"]), sc([G, G, G, G, "mark", "submit", "unmark", "submit"], lean=False), sc([G, G, G, "save", "mark", G, "save", "load"], works=(1, 3))]
+        gens += [sc([G, G, G, G, "clean", "mark", "save", "load"]), sc([G, G, G, G, "mark", "submit", "unmark", "submit"], lean=False), sc([G, G, G, "save", "mark", G, "save", "load"], works=(1, 3)),
+                 sc([G, G, G, G, "mark", "submit"], lean=False, works=(1,), ties=True)]
     elif prop == "C19":
         exh = [("core", 4, 1, 2, 1)]
         gens = [g(D=1, P=2, ops=maint_ops, flags=["-probe"], S=(1, 3, 7)),
                 g(D=2, P=3, ops=("submit", "clean"), flags=["-probe"], S=(1, 3)),
                 g(D=1, P=1, ops=maint_ops, flags=["-probe"], S=(1, 7))]
-        gens += [sc([G, G, G, G, "clean"], flags=["-probeend"], S=(1, 7)), sc([G, G, G, G], flags=["-probeend"], S=(1, 3), works=(1, 3)), sc([G, G, "clean", G, G], flags=["-probeend"], D=1, P=1, S=(1, 7))]
+        gens += [sc([G, G, G, G, "clean"], flags=["-probeend"], S=(1, 7)), sc([G, G, G, G], flags=["-probeend"], S=(1, 3), works=(1, 3)), sc([G, G, "clean", G, G], flags=["-probeend"], D=1, P=1, S=(1, 7)),
+                 sc([G, G, G, G], flags=["-probeend"], S=(1, 3), works=(1,), ties=True)]
     elif prop == "C18":
         exh = [("maint", 4, 1, 2, 1)]
         pf = ["-proofs"]
@@ -125,7 +135,8 @@ def plan(prop, tier):
                 g(D=6, P=6, ops=("submit", "mark", "clean", "save", "load"), flags=pf),
                 sc([G, G, G, G, "clean", "save", "load"], D=1, P=1, flags=pf),
                 sc([G, G, "clean", G, G], D=2, P=1, flags=pf, works=(1, 3)),
-                sc([G, G, G, G, "mark", "clean"], flags=pf)]
+                sc([G, G, G, G, "mark", "clean"], flags=pf),
+                sc([G, G, G, G, "clean"], flags=pf, works=(1,), ties=True)]
     else:
         raise Infra("no header plan for " + prop)
     if not quick:
@@ -145,7 +156,7 @@ def generate(scratch, gc, s, idx):
         if "unmark" in sc:
             ops.add("mark")
         out, st = run_tlc(scratch, "HCRun", gen_cfg(gc["N"], gc["D"], gc["P"], gc["subs"], len(sc), sorted(ops),
-                                                    gc.get("works", (1, 2)), gc.get("lean", True)),
+                                                    gc.get("works", (1, 2)), gc.get("lean", True), gc.get("ties", False)),
                           files={"HCRun.tla": script_module(sc)}, workers=1, timeout=1800, name="scr%d" % idx)
         if st.get("error") or st.get("violation") or "Model checking completed" not in out:
             raise Infra("scripted generation failed: %s\n%s" % (st, out[-2000:]))
@@ -155,7 +166,7 @@ def generate(scratch, gc, s, idx):
         return behs
     out, st = run_tlc(scratch, "HCRun",
                       gen_cfg(gc["N"], gc["D"], gc["P"], gc["subs"], gc["depth"], gc["ops"], gc.get("works", (1, 2)),
-                              gc.get("lean", True)),
+                              gc.get("lean", True), gc.get("ties", False)),
                       files={"HCRun.tla": script_module([])},
                       workers=1, simulate=gc["num"], depth=gc["depth"] + 2, tlc_seed=s, timeout=1200,
                       name="gen%d" % idx)
@@ -261,7 +272,9 @@ def run(prop, tier):
                 harness_stats.append({"S": S, "D": gc["D"], "P": gc["P"], "flags": gc["flags"] + ([extra] if extra else []),
                                       "behaviours": r["stats"]["behaviours"], "steps": r["stats"]["steps"],
                                       "diverging": r["diverging"], "max_height": r["stats"]["max_height"],
-                                      "crash_images": r["stats"]["crash_images"], "reorgs": r["stats"]["reorgs"]})
+                                      "crash_images": r["stats"]["crash_images"], "reorgs": r["stats"]["reorgs"],
+                                      "tie_states": r["stats"].get("tie_states", 0), "tie_followed": r["stats"].get("tie_followed", 0),
+                                      "tie_stopped": r["stats"].get("tie_stopped", 0)})
                 for k2, v in r["stats"]["comparisons"].items():
                     comparisons[k2] = comparisons.get(k2, 0) + v
                 nontrivial += r["stats"]["behaviours"]
@@ -380,7 +393,10 @@ def run(prop, tier):
     res.assumptions += [
         "fabricated headers with difficulty and split protection disabled (C02/C03 cover those paths)",
         "per-header work computed by the dependency's ConvertToWork(ConvertToDifficulty(bits)) is trusted",
-        "ties between equal-work tips are excluded from spec->code behaviours (NoTie guard); C01 covers them by trace validation",
+        "states with several equal-work tips: the specification leaves the choice of tip open (C01 asks for a tip of "
+        "maximal work); generation families with Ties=TRUE emit one behaviour per choice and the replay follows the one "
+        "the implementation takes - a behaviour stops without a verdict at the step where the implementation chose "
+        "another allowed tip (tie_stopped); only an accepting submission or a mark may choose, Clean/Save/Load may not",
         "only submissions whose outcome the properties dictate are generated (Dict guard: parent safely held or unknown)",
     ]
     return res.finish()
